@@ -34,4 +34,59 @@ PROPS = {
                     "per-type layouts incl. NTP era arithmetic taken from the RFC, domain rejection as iff-raises clauses; "
                     "dictionary rows exhaustively; word layout lemmas over concrete byte arithmetic.",
     ),
+    "C02": dict(
+        specs=["packer", "avp", "avp_types", "avp_grouped", "base"],
+        ground=[ground.c02_registry, ground.c02_structure, ground.c01_struct_layouts],
+        replay=replay.generic,
+        trusted_base=["T-struct (cross-checked natively each run)"],
+        assumptions=COMMON_ASSUME + [
+            "behavioural contract Message.__post_init__/Message.__init__ is assumed for the typed command classes "
+            "(their overrides are not verified against it here); the generic classes Message/UndefinedMessage are verified",
+            "NOT DECIDED by this check: the AVP search clause (find_avps/_traverse_avp_tree = at_path) and the AVP-sequence "
+            "equality of Message.from_bytes (only header fields, termination, progress and raises are proved); "
+            "re-encoding is proved per AVP (C01) and for the message frame (as_bytes#plain), not yet composed"],
+        level_text="Deductive proof for all header values and buffers: MessageHeader.as_packed/from_bytes against the hdr_wire() "
+                   "spec function incl. the decode(encode) lemma; Message.as_bytes (generic class) = hdr_wire(len := 20+|body|) ++ "
+                   "wires(avps) with a loop invariant; Message.from_bytes yields the wire's header fields (flags included) for "
+                   "every class, terminates (variant) and raises only decode errors; class dispatch and the registry are ground "
+                   "obligations evaluated exhaustively on the real registry (every code x R bit).",
+        level_note="Trusted: pyvc generator/builtin models, T-struct, SMT solvers. Assumed: behavioural __post_init__ contract for "
+                   "typed classes. Not decided: AVP search (at_path) and AVP-sequence equality of the decoded list.",
+        explanation="Header codec, message frame codec and decode loop under contract; registry/dispatch exhaustive.",
+    ),
+    "C04": dict(
+        specs=["packer", "avp", "avp_types", "avp_grouped", "base"],
+        ground=[ground.c01_struct_layouts],
+        replay=replay.generic,
+        trusted_base=["T-struct, T-sock, T-utf8, T-time raise conditions of the stdlib calls used by the getters"],
+        assumptions=COMMON_ASSUME + [
+            "wall-clock linearity is not decided: only loop variants (each decode loop consumes >= 8 bytes per iteration, so at "
+            "most len/8 iterations per nesting level) are proved",
+            "typed command classes: assign_attr_from_defs / __post_init__ are covered by the behavioural contract "
+            "(raises only AvpDecodeError) which is assumed for the typed classes"],
+        level_text="Deductive proof of raises clauses and termination on every decode entry point: each typed value getter raises "
+                   "only AvpDecodeError for an ARBITRARY payload; Avp.from_bytes only AvpDecodeError; Message.from_bytes only "
+                   "ConversionError/AvpDecodeError; Avp.__str__ and MessageHeader.__str__ raise nothing; decode loops have a "
+                   "strictly decreasing variant len(buf)-pos and never read outside the supplied buffer (position invariant).",
+        level_note="Trusted: exact raise conditions of struct/socket/bytes.decode/datetime (T-struct cross-checked). "
+                   "Not decided: wall-clock time; hostile input to typed command classes beyond the behavioural contract.",
+        explanation="raises/variant obligations on the real decode functions.",
+    ),
+    "C20": dict(
+        specs=["packer", "avp", "avp_types", "avp_grouped", "base", "node_model", "c20"],
+        ground=[ground.c20_pairing, ground.c02_structure],
+        replay=replay.generic,
+        trusted_base=[],
+        assumptions=COMMON_ASSUME + [
+            "region abstraction in Message.to_answer: the __mro__/__subclasses__ class lookup is replaced by an arbitrary "
+            "command class (its result is decided by the ground obligations C20.pair[*])",
+            "behavioural contract Message.__init__ for typed classes (assumed); the concrete effect of every typed "
+            "__post_init__ on the header is covered by C20.pair[*] for all 256 flag octets"],
+        level_text="Deductive proof that Message.to_answer returns a fresh message whose header mirrors version/app/hbh/e2e, keeps "
+                   "only the P bit (R, E, T cleared) and modifies nothing of the request (frame); Node._generate_answer and "
+                   "Application.generate_answer add Origin-Host/Realm from the node and copy Session-Id/Proxy-Info; class pairing "
+                   "and command-code equality are ground obligations over every command class x all 256 flag octets.",
+        level_note="Trusted: pyvc, SMT solvers. Ground rows are exhaustive evaluation on the real class hierarchy.",
+        explanation="to_answer header contract + frame; pairing exhaustive.",
+    ),
 }
